@@ -153,3 +153,29 @@ Definition auto_find_or_insert (a : auto) (kv : cell) : res (auto * bool * Z) :=
 Definition auto_find (a : auto) (key : Z) : res (option Z) :=
   let n := length (acells a) in
   find n (ideal_of Power2Mod n) (next_of Power2Mod n) {| cells := acells a; entries := aentries a |} key.
+
+(* ---- operation sequences (used by the refinement theorem and by the correspondence driver) ---- *)
+Inductive op := OFind (k : Z) | OFoi (k v : Z) | OIns (k v : Z).
+Inductive out := RFind (r : option Z) | RFoi (found : bool) (v : Z) | RIns | RThrow | RFuel.
+
+Section Run.
+  Variable n : nat.
+  Variable ideal : Z -> nat.
+  Variable next : nat -> nat.
+  (* the run stops at the first exception, as the driver does *)
+  Fixpoint run (t : table) (ops : list op) : list out :=
+    match ops with
+    | [] => []
+    | OFind k :: r => match find n ideal next t k with
+                      | Ok x => RFind x :: run t r
+                      | _ => [RFuel] end
+    | OFoi k v :: r => match find_or_insert n ideal next t (k, v) with
+                       | Ok (t', f, x) => RFoi f x :: run t' r
+                       | Throw => [RThrow]
+                       | OutOfFuel => [RFuel] end
+    | OIns k v :: r => match insert n ideal next t (k, v) with
+                       | Ok t' => RIns :: run t' r
+                       | Throw => [RThrow]
+                       | OutOfFuel => [RFuel] end
+    end.
+End Run.
